@@ -1,5 +1,5 @@
 \* thorough export (2/4), pairs: all five kinds with everything switched on: scheme case, trailing-dot host,
-\* HTTPS authorities "" and "..", segments {a, A, %2e%2e, %2F, x200 (200 characters), ""}, <= 2 segments.
+\* HTTPS authorities "" and "..", segments {a, A, %2e%2e, %2F, x200 (200 characters), ""}, <= 2 segments; the first URI of a pair deviates in at most two of (scheme case, host, host case, port, module) from the plain one.
 SPECIFICATION Spec
 CONSTANTS
   Variant = "as_shipped"
@@ -13,7 +13,7 @@ CONSTANTS
   Mods = {"m", "n"}
   Segs = {"a", "A", "%2e%2e", "%2F", "x200", ""}
   SegsAll = {"a"}
-  NearSpread = 5
+  NearSpread = 2
   MaxSegs = 2
 INVARIANT Emit
 CHECK_DEADLOCK FALSE
